@@ -328,19 +328,23 @@ class Memory():
     def write(self, memory, addr, data, flush_queue=False, progress_cb=None):
         """Write the specified data to the given memory at the given address"""
         wreq = _WriteRequest(memory, addr, data, self.cf, progress_cb)
-        if memory.id not in self._write_requests:
-            self._write_requests[memory.id] = []
 
         # Workaround until we secure the uplink and change messages for
         # mems to non-blocking
         self._write_requests_lock.acquire()
-        if flush_queue:
-            self._write_requests[memory.id] = self._write_requests[
-                memory.id][:1]
-        self._write_requests[memory.id].append(wreq)
-        if len(self._write_requests[memory.id]) == 1:
-            wreq.start()
-        self._write_requests_lock.release()
+        try:
+            # The table is replaced when the Crazyflie is disconnected, only
+            # touch it with the lock held and use one and the same table
+            write_requests = self._write_requests
+            if memory.id not in write_requests:
+                write_requests[memory.id] = []
+            if flush_queue:
+                write_requests[memory.id] = write_requests[memory.id][:1]
+            write_requests[memory.id].append(wreq)
+            if len(write_requests[memory.id]) == 1:
+                wreq.start()
+        finally:
+            self._write_requests_lock.release()
 
         return True
 
